@@ -43,7 +43,7 @@ Proof. exact no_hang_lemma. Qed.
 Theorem ok_is_sound : forall nw tm es h os e h' os' c rq,
     run (init nw tm) es = (h, os) -> step h e = (h', os') ->
     In (OFinal c rq SOk) os' ->
-    (forall t raw, In (ODone t raw) os' -> t_rq t = rq -> t_kind t = KWorker \/ t_kind t = KLoad) ->
+    (forall t raw, In (ODone t raw) os' -> t_rq t = rq -> claims_application (t_kind t) = true) ->
     forall w r, In (OSend w r rq) (os ++ os') -> acked (es ++ [e]) r.
 Proof. exact ok_is_sound_lemma. Qed.
 
@@ -52,7 +52,7 @@ Proof. exact ok_is_sound_lemma. Qed.
 Theorem ok_verdict_counts : forall nw tm es h os e h' os' t raw,
     run (init nw tm) es = (h, os) -> step h e = (h', os') ->
     In (ODone t raw) os' ->
-    t_kind t = KWorker \/ t_kind t = KLoad ->
+    claims_application (t_kind t) = true ->
     In SOk (verdict (t_kind t) (t_err t) (on_finish_flag raw)) ->
     raw = false /\ t_err t = 0 /\ t_exp t <= t_ok t /\
     forall w r, In (OSend w r (t_rq t)) (os ++ os') -> acked (es ++ [e]) r.
@@ -115,14 +115,13 @@ Proof.
   - intros [w [H|[H|[]]]]; discriminate.
 Qed.
 
-(** a task without deadline waits forever for a worker that has gone *)
-Theorem no_deadline_hang_refuted :
-  forall n, finals_of 0 (snd (run (init 1 1000) ([EClient 0 (VLoad 1); EWorkerClosed 0] ++ repeat (ETick 5000) n))) = [].
-Proof.
-  intros n. rewrite run_app, hung_reached.
-  pose proof (hung_run n 0%N) as H. destruct (run (hung 0) (repeat (ETick 5000) n)) as [h2 o2].
-  cbn [snd] in *. subst o2. reflexivity.
-Qed.
+(** A worker whose channel closes leaves nothing in flight: every request it
+    had not answered is counted as a failure at once, so no task — with or
+    without deadline — keeps waiting for it. *)
+Theorem no_orphans_after_close : forall nw tm es h os w h1 o1,
+    run (init nw tm) es = (h, os) -> apply_event h (EWorkerClosed w) = (h1, o1) ->
+    forall r tid, In (r, tid) (in_flight h1) -> fst (fst r) <> w.
+Proof. exact no_orphans_after_close_lemma. Qed.
 
 (** Non-vacuity: concrete reachable histories on which the hypotheses hold. *)
 Example one_verdict_nonvacuous :
@@ -131,10 +130,15 @@ Example one_verdict_nonvacuous :
       EResp 1 (Some (1,0,0)) SOk; EResp 1 (Some (1,0,0)) SFailure])) = [SOk].
 Proof. vm_compute. reflexivity. Qed.
 
+Example no_orphans_after_close_nonvacuous :
+  finals_of 0 (snd (run (init 2 1000) [EClient 0 (VLoad 2); EResp 0 (Some (0,0,1)) SOk; EResp 0 (Some (0,0,2)) SOk;
+                                        EWorkerClosed 1])) = [SFailure].
+Proof. vm_compute. reflexivity. Qed.
+
 Example no_hang_nonvacuous :
   let '(h0, _) := run (init 2 1000) [EClient 0 VWorker] in
   exists t, In t (tasks h0) /\ t_deadline t = Some 1000%N /\
-  let '(h, _) := run h0 [EResp 0 (Some (0,0,0)) SOk; EWorkerClosed 1] in
+  let '(h, _) := run h0 [EResp 0 (Some (0,0,0)) SOk; EResp 1 (Some (1,0,0)) SProcessing] in
   finals_of 0 (snd (step h (ETick 1001))) = [SFailure].
 Proof. vm_compute. eexists. split; [left; reflexivity|]. split; reflexivity. Qed.
 
